@@ -60,6 +60,8 @@ NAME = ('name', WORD, ('name',))
 
 # (name, description, keywords, keyword line override or None, vocabulary)
 _V = ('if', 'IF', 'If', 'iff', 'i', 'end', 'End', 'x', 'endx', '=')
+_MANY = ('begin', 'case', 'default', 'downto', 'elsif', 'end', 'function', 'if', 'otherwise', 'procedure', 'record', 'repeat', 'then',
+         'until', 'while')
 KEYWORD_GRAMMARS = (
     ('choice', (('start', seq(C('stmt'), ('eof',))),
                 ('stmt', ch(seq(T('if'), ('named', 'c', C('name')), T('end')), seq(('named', 'l', C('name')), T('='), ('named', 'r', C('name'))))),
@@ -82,6 +84,8 @@ KEYWORD_GRAMMARS = (
      ('end-if', 'class', 'if'), "@@keyword :: 'end-if' \"class\"\n@@keyword :: if",
      ('end-if', 'END-IF', 'end', 'if', 'class', 'Class', 'classes', 'end-i', 'x')),
     ('upper-case-keywords', (('start', seq(('closure', C('name')), ('eof',))), NAME), ('IF', 'End'), None, _V),
+    # a keyword list long enough for the emitted KEYWORDS tuple of a generated parser to wrap over several lines: every one is reserved
+    ('many-keywords', (('start', seq(('closure', C('name')), ('eof',))), NAME), _MANY, None, (*_MANY, 'x', 'beginx')),
     # spellings that differ only in case are separate keywords whenever case matters for the parse at hand
     ('case-variant-keywords', (('start', seq(('closure', C('name')), ('eof',))), NAME), ('If', 'if', 'End'), None, _V),
     ('name-or-token', (('start', seq(('closure', ('group', ch(('named', 'n', C('name')), ('named', 'k', T('if')), ('named', 'k', T('end'))))),
@@ -255,7 +259,7 @@ def run(tier='quick', seed=0, info=None):
     n = 3 if tier == 'quick' else 4
     jobs = []
     for gname, _d, _k, _l, vocab in KEYWORD_GRAMMARS:
-        ins = inputs_of(vocab, n if len(vocab) <= 10 else n - 1)
+        ins = inputs_of(vocab, n if len(vocab) <= 10 else (n - 1 if len(vocab) <= 12 else 1))
         for mode in MODES:
             for part in chunked(ins, max(1, len(ins) // 400)):
                 jobs.append((gname, (mode[0],), part))
